@@ -343,6 +343,14 @@ for _k, _v in {
     "C16": " Also: parse_expr returns only type-checked trees (typed-tree), the invariant the counted typing unwraps rest on.",
 }.items():
     ADDED[_k] = (ADDED.get(_k, "") + _v).strip()
+# round 14
+for _k, _v in {
+    "C03": " Also: `x op= y` is accepted only if the result fits back (opassign-result, shared with C02).",
+    "C07": " Also: every name-writing emission site is a known write form (write-forms, shared with C10).",
+    "C08": " Also: the field-store handlers never compare kinds (field-write).",
+    "C11": " Also: import_names supplies the identifier it binds (names-import same-ident).",
+}.items():
+    ADDED[_k] = (ADDED.get(_k, "") + _v).strip()
 # round 13 and the observations triaged after round 12
 for _k, _v in {
     "C02": " Also: the loop counter starts at the kind of start + step (start-kind).",
